@@ -1216,7 +1216,11 @@ class NamespaceManager(dict):
         if self.parent:
             # all attempts have failed so far
             # now delegate this to the parent NamespaceManager
-            return self.parent.valid_qualified_name(qname)
+            parent_qname = self.parent.valid_qualified_name(qname)
+            if parent_qname is not None:
+                # re-home the name in this manager, so that its printed form
+                # keeps denoting the same URI when resolved here later on
+                return self.valid_qualified_name(parent_qname)
 
         # Default to FAIL
         return None
